@@ -270,6 +270,8 @@ def run(ctx, tier):
     results += header_error_edge(ctx)
     results += remap_on_success(ctx)
     results += ob['O1'] + ob['O2'] + ob['O3']
+    import c02
+    results += c02.alternate_rule(ctx, rule='C11.alternate')
     return dict(
         results=results, stats=dict(ctx.stats),
         explanation=(
@@ -278,5 +280,5 @@ def run(ctx, tier):
             'unwrapped, discarded or turned into success; (O4) the shared free list is replaced only behind the success edge of the header write; (O5) every '
             'exit after a successful header write has published the free list (exception: poisoned free-list lock); (O5e) the error edge of the header write '
             'resolves which header is current; (remap-on-success) the shared map is replaced only behind successful growth and mapping; plus the C02 ordering '
-            'obligations. NOT decided: short-write behaviour of write_all beyond O5e, kernel state after a failed fsync, correctness of later transactions.'),
+            'obligations and the alternating header slot (a failed or torn header write must never hit the live header). NOT decided: short-write behaviour of write_all beyond O5e, kernel state after a failed fsync, correctness of later transactions.'),
         assumptions=['write_all/flush/sync_all/allocate/mmap report failures through their Result', 'a failed call has no effect other than possibly a partial write'])
